@@ -1,4 +1,4 @@
-import IncrVerif.Proofs.MapOld29
+import IncrVerif.Proofs.MapOld35
 /-!
 # C15 (and C01) for whole histories of programs with `map_with_old` nodes and incremental-map operators
 
@@ -64,18 +64,33 @@ W2, the operator machines of `opWithOld` (`Proofs/MapOld26…29`).
   top-level variable(s), arbitrary further actions of the fragment (edits, observing, un-observing, …), a `stabilise`:
   after it every in-use observer of the operator's output node reads the operator's definition applied to the CURRENT
   value(s) of the variable(s).
+W3, C17 for whole histories (`Proofs/MapOld30…34`).
+* `operator_step`: in ANY state of a drain that satisfies the drain invariant, the recompute step of an operator node
+  logs exactly the calls `opCalls d g σ old x` (then notification noise only), where `x` is the current value of its
+  input and `(σ, old)` — closure state and stored output — is the state of a fresh node or `(x0, opSpec d g x0)` for the
+  canonical input `x0` the operator LAST RAN ON.  `drain_steps`: every `recomputeOne` of a `drainHeap` that starts with the
+  drain invariant (the drain of every `stabilise` of a history does: `stabilise_pending … .drain`) happens in such a state.
+* `filter_map_step_calls`: hence a filter-map node that has run before calls the user function EXACTLY for the
+  bindings `k ↦ v` of the current input that the input it last ran on did not hold (an `↔`; never for removed or
+  untouched keys); `fold_step_calls`, `merge_step_calls`, `partition_step_calls`: every logged call names a key whose
+  binding differs between the two inputs; `same_input_no_calls`: an operator re-run on the input it last ran on calls
+  nothing.
 * Non-vacuity (`decide +kernel`): `histFm` (filter-map and fold observed; input edited; filter-map un-observed; input
   edited twice; re-observed), `histMerge` (merge of two initially EMPTY maps — the first-run-`false` case —, edited,
   un-observed, both edited, re-observed; partition) run, pass `okAction`, and read the definitions' values.
 
 ASSUMED / NOT PROVED.  Partial correctness throughout (no claim that histories of the fragment never panic).  Values:
-every literal and written value must be `Canon` (sorted maps) — for non-canonical literals the MODEL (`fnIdent` = identity)
-and the Rust harness (conversion into a `BTreeMap`) disagree, see FINDINGS MF-1; the theorem is about the model.
+every literal and written value must be `Canon` (sorted maps): `fnIdent` is the identity in the model while the Rust
+harness converts into a `BTreeMap`, so for non-canonical map values model and implementation would disagree (FINDINGS
+MF-1).  The history PARSER normalises map literals (`canonPairs`), and `parsed_values_canonical` proves that every parsed
+value is `Canon`, so every parsed history meets the hypothesis; it remains a hypothesis for `Action` lists built by hand.
 Machine ids outside `WId`, user function ids `≥ 1000003`, operands other than top-level names are outside the fragment.
 The operators' input in the `*_reads` theorems is a variable (for other input nodes `reads_unary` gives `sp g` of the
-from-scratch value of the input node).  W3 (C17 globally: calls only for keys that differ from the input the operator
-last ran on) is NOT proved here beyond what `MInv` gives (the closure state of an operator node IS the input it last ran
-on: `MapOldH.opReach`, `opState`).
+from-scratch value of the input node).
+W3 is proved per operator STEP of a reachable drain state, not as a statement about the whole event log of a `stabilise`
+(`drain_steps` is the induction principle that connects the two: every `recomputeOne` of the drain of a `stabilise` of a
+history happens in a state with `DInvW`); for fold/merge/partition only "every call names a differing key" (no
+converse), for the fold not the logged accumulator strings.
 -/
 namespace IncrVerif.Props.C15History
 open IncrVerif IncrVerif.Engine IncrVerif.Driver IncrVerif.MapOps IncrVerif.Proofs IncrVerif.Proofs.Sched
@@ -266,6 +281,95 @@ theorem merge_reads {d : Defs} {N : Nat} {dbg : Bool} {pre mid : List Action} {s
   merge_history_reads hm (fun a h => okAction_sound (hpre a h)) (fun a h => okAction_sound (hmid a h)) h0 hkx hky hx hy
     h1 h2 h3 ho hu hon hcx hcy
 
+/-- every value the history parser produces is canonical (map literals are sorted and duplicate-free), so the `Canon`
+requirements of `okAction` hold for every parsed history -/
+theorem parsed_values_canonical {str : String} {v : Val} (h : parseVal str = some v) : Canon v := parseVal_canon h
+
+/-! ## W3: C17 at every operator step of a reachable drain state -/
+
+/-- **C17, engine level.** The recompute step of an operator node `n` (input node `i`) in a state with the drain
+invariant: the log grows by the `inv` events of exactly the calls `opCalls d g σ old x` (`callEvents`, most recent first)
+and then by notification noise only; `x` is the current value of the input, `(σ, old)` the node's closure state and stored
+output — the state of a fresh node, or `(x0, opSpec d g x0)` with `x0` the canonical input the operator last ran on. -/
+theorem operator_step {d : Defs} {fuel n g i : Nat} {s s' : State} {r : Option Nat}
+    (D : DInvW d.toEnv Canon (machSpec d) s (some n)) (hk : (s.nodeD n).kind = .mapWithOld g i)
+    (hg : opBase ≤ g) (h : (recomputeOne d.toEnv fuel n).run.run s = (.ok r, s')) :
+    ∃ x tail, (s.nodeD i).value = some x ∧ Canon x ∧
+      s'.log = tail ++ callEvents n (opCalls d g (s.nodeD n).oldState (s.nodeD n).value x) ++ s.log ∧
+      (∀ e, e ∈ tail → Step.Noise e) ∧
+      (((s.nodeD n).oldState = .unit ∧ (s.nodeD n).value = none) ∨
+        (Canon (s.nodeD n).oldState ∧ (s.nodeD n).value = some (opSpec d g (s.nodeD n).oldState))) :=
+  operator_step_calls D hk hg h
+
+/-- **every step of a drain happens in a state with the drain invariant**: a reflexive, transitive relation that holds
+across every pop and across every `recomputeOne` on the current node of a state with `DInvW` holds across the whole
+`drainHeap`.  (The drain of every `stabilise` of a history starts with the drain invariant: `StabilisedW.drain`.) -/
+theorem drain_steps {env : Env} {C : Val → Prop} {sp : Nat → Val → Val} (V : ValOK env C sp)
+    (P : State → State → Prop) (hrefl : ∀ s, P s s) (htrans : ∀ a b c, P a b → P b c → P a c)
+    (hpop : ∀ s r s1, DInvW env C sp s none → rchRemoveMin.run.run s = (.ok r, s1) → P s s1)
+    (hstep : ∀ s n fuel r s', DInvW env C sp s (some n) → (recomputeOne env fuel n).run.run s = (.ok r, s') → P s s')
+    {fuel : Nat} {s s' : State} (D : DrainInvW env C sp s) (h : (drainHeap env fuel).run.run s = (.ok (), s')) :
+    P s s' :=
+  drain_steps_ind V P hrefl htrans hpop hstep fuel s s' D h
+
+/-- **C17, `incr_filter_mapi`.** A filter-map node that has run before, recomputed in a state with the drain invariant,
+logs one `M{m}.fn` call for EXACTLY the bindings `k ↦ v` of the CURRENT input `x` that the input `x0` it LAST RAN ON (its
+closure state) did not hold. -/
+theorem filter_map_step_calls {d : Defs} {fuel n g i m : Nat} {s s' : State} {r : Option Nat}
+    (D : DInvW d.toEnv Canon (machSpec d) s (some n)) (hk : (s.nodeD n).kind = .mapWithOld g i) (hg : opBase ≤ g)
+    (hd : decodeOp g = (.fm, m)) (hran : (s.nodeD n).value ≠ none)
+    (h : (recomputeOne d.toEnv fuel n).run.run s = (.ok r, s')) :
+    ∃ x x0 tail calls, (s.nodeD i).value = some x ∧ (s.nodeD n).oldState = x0 ∧
+      s'.log = tail ++ callEvents n calls ++ s.log ∧ (∀ e, e ∈ tail → Step.Noise e) ∧
+      ∀ c, c ∈ calls ↔ ∃ k v, c = (s!"M{m}.fn", [.int k, .int v], optStr (opFmFn (d.opParams m) k v)) ∧
+        AMap.lookup (asMap x) k = some v ∧ AMap.lookup (asMap x0) k ≠ some v :=
+  fm_step_calls D hk hg hd hran h
+
+/-- **C17, the fold**: every logged call is an `add`/`remove`/`update` for a key whose binding differs between the
+input the operator last ran on and the current input. -/
+theorem fold_step_calls {d : Defs} {fuel n g i m : Nat} {rev upd : Bool} {s s' : State} {r : Option Nat}
+    (D : DInvW d.toEnv Canon (machSpec d) s (some n)) (hk : (s.nodeD n).kind = .mapWithOld g i) (hg : opBase ≤ g)
+    (hd : decodeOp g = (.fold rev upd, m)) (hran : (s.nodeD n).value ≠ none)
+    (h : (recomputeOne d.toEnv fuel n).run.run s = (.ok r, s')) :
+    ∃ x x0 tail calls, (s.nodeD i).value = some x ∧ (s.nodeD n).oldState = x0 ∧
+      s'.log = tail ++ callEvents n calls ++ s.log ∧ (∀ e, e ∈ tail → Step.Noise e) ∧
+      ∀ c, c ∈ calls → ∃ k rest, c.2.1 = .int k :: rest ∧ AMap.lookup (asMap x) k ≠ AMap.lookup (asMap x0) k ∧
+        (c.1 = s!"M{m}.add" ∨ c.1 = s!"M{m}.remove" ∨ c.1 = s!"M{m}.update") :=
+  MapOldH.fold_step_calls D hk hg hd hran h
+
+/-- **C17, merge**: every logged call is a `merge` call for a key whose binding differs in the left or in the right
+input (`mergeIn` splits the `zip` pair). -/
+theorem merge_step_calls {d : Defs} {fuel n g i m : Nat} {s s' : State} {r : Option Nat}
+    (D : DInvW d.toEnv Canon (machSpec d) s (some n)) (hk : (s.nodeD n).kind = .mapWithOld g i) (hg : opBase ≤ g)
+    (hd : decodeOp g = (.merge, m)) (hran : (s.nodeD n).value ≠ none)
+    (h : (recomputeOne d.toEnv fuel n).run.run s = (.ok r, s')) :
+    ∃ x x0 tail calls, (s.nodeD i).value = some x ∧ (s.nodeD n).oldState = x0 ∧
+      s'.log = tail ++ callEvents n calls ++ s.log ∧ (∀ e, e ∈ tail → Step.Noise e) ∧
+      ∀ c, c ∈ calls → ∃ k, c.1 = s!"M{m}.merge" ∧ (∃ l rr, c.2.1 = [.int k, l, rr]) ∧
+        (AMap.lookup (mergeIn x).1 k ≠ AMap.lookup (mergeIn x0).1 k ∨
+          AMap.lookup (mergeIn x).2 k ≠ AMap.lookup (mergeIn x0).2 k) :=
+  MapOldH.merge_step_calls D hk hg hd hran h
+
+/-- **C17, partition**: every logged call is for a binding of the current input that the input last run on did not
+hold. -/
+theorem partition_step_calls {d : Defs} {fuel n g i m : Nat} {s s' : State} {r : Option Nat}
+    (D : DInvW d.toEnv Canon (machSpec d) s (some n)) (hk : (s.nodeD n).kind = .mapWithOld g i) (hg : opBase ≤ g)
+    (hd : decodeOp g = (.part, m)) (hran : (s.nodeD n).value ≠ none)
+    (h : (recomputeOne d.toEnv fuel n).run.run s = (.ok r, s')) :
+    ∃ x x0 tail calls, (s.nodeD i).value = some x ∧ (s.nodeD n).oldState = x0 ∧
+      s'.log = tail ++ callEvents n calls ++ s.log ∧ (∀ e, e ∈ tail → Step.Noise e) ∧
+      ∀ c, c ∈ calls → ∃ k v, c.1 = s!"M{m}.fn" ∧ c.2.1 = [.int k, .int v] ∧
+        AMap.lookup (asMap x) k = some v ∧ AMap.lookup (asMap x0) k ≠ some v :=
+  part_step_calls D hk hg hd hran h
+
+/-- **C17: an unchanged input costs no call**, whatever the operator. -/
+theorem same_input_no_calls {d : Defs} {fuel n g i : Nat} {s s' : State} {r : Option Nat}
+    (D : DInvW d.toEnv Canon (machSpec d) s (some n)) (hk : (s.nodeD n).kind = .mapWithOld g i) (hg : opBase ≤ g)
+    (hran : (s.nodeD n).value ≠ none) (hsame : (s.nodeD i).value = some (s.nodeD n).oldState)
+    (h : (recomputeOne d.toEnv fuel n).run.run s = (.ok r, s')) :
+    ∃ tail, s'.log = tail ++ s.log ∧ ∀ e, e ∈ tail → Step.Noise e :=
+  MapOldH.same_input_no_calls D hk hg hran hsame h
+
 /-! ## non-vacuity -/
 
 /-- `mfn M0 1 0 2 1 2` -/
@@ -347,6 +451,21 @@ example : readAfter exD.toEnv histMerge 2 =
     readAfter exD.toEnv histMerge 1 =
       some (.pair (.map (partitionSpec (opPartFn (exD.opParams 0)) [(2, 4), (3, 0)]).1)
         (.map (partitionSpec (opPartFn (exD.opParams 0)) [(2, 4), (3, 0)]).2)) :=
+  ⟨by decide +kernel, by decide +kernel⟩
+
+/-- the user-function calls logged along a history, oldest first, rendered as in the trace -/
+def logOf (env : Env) (acts : List Action) : List String :=
+  match runActions env acts (State.init 128 true) #[] with
+  | .ok (s, _) => s.log.reverse.map Event.render
+  | .error _ => []
+
+set_option maxRecDepth 100000 in
+/-- W3 on `histFm`: when the filter-map node `n2` is re-observed it last ran on `{1:3,2:1,5:3}`, the input then went
+`{2:1}` and `{2:2,4:1}` while it was unobserved: its last step calls the user function for the bindings `2 ↦ 2` (changed
+with respect to the input it LAST RAN ON) and `4 ↦ 1` (new) only — not for the removed keys 1 and 5, and the
+intermediate input `{2:1}` plays no role.  (16 calls in the whole history.) -/
+example : (logOf exD.toEnv histFm).length = 16 ∧
+    (logOf exD.toEnv histFm).drop 14 = ["inv M0.fn@n2 (2,2)->2", "inv M0.fn@n2 (4,1)->()"] :=
   ⟨by decide +kernel, by decide +kernel⟩
 
 end IncrVerif.Props.C15History
